@@ -116,7 +116,10 @@ func (f *FSM) Restore() {
 
 	f.stopTimer()
 	f.state = Opened
-	f.restartCount = 0
+	// Opened is always entered with a full restart counter (RFC 1661 4.1:
+	// irc on the way into Opened), so that a renegotiation started from
+	// Opened retransmits its Configure-Request up to Max-Configure times.
+	f.restartCount = f.maxConf
 	f.failCount = 0
 }
 
